@@ -136,7 +136,7 @@ func (s *syncRun) startFull() error {
 	s.wg = &sync.WaitGroup{}
 	s.crashed = false
 	m := s.full.M
-	errCh := make(chan error, 1)
+	errCh := make(chan error, 2)
 	s.loop("RetrieveLoop", func(ctx context.Context) { m.RetrieveLoop(ctx) })
 	s.loop("HeaderStoreRetrieveLoop", func(ctx context.Context) { m.HeaderStoreRetrieveLoop(ctx) })
 	s.loop("DataStoreRetrieveLoop", func(ctx context.Context) { m.DataStoreRetrieveLoop(ctx) })
@@ -447,9 +447,17 @@ func newSyncRun(c *Ctx, run string, ih uint64, shape [][]string, cfg world.F) *s
 	s.buildChain(shape)
 	s.full = w.NewNode(world.NodeOpts{Name: "full", Aggregator: false, DAStart: 1, DABlockTime: time.Second, BlockTime: 100 * time.Millisecond})
 	s.full.Exec.ShareRoots(s.seq.Exec)
+	syncRunCount++
+	if syncRunCount%2 == 0 && s.full.KV != nil {
+		// every other run: the full node's datastore writes yield the processor before they land (as writes to a
+		// disk do), so the loops that were just signalled run between any two durable writes of block application
+		s.full.KV.Yield = 4
+	}
 	c.Tr.Emit("Phase", world.F{"name": "sync"})
 	return s
 }
+
+var syncRunCount int
 
 // Shapes known to the Syncer model (MCSyncer.tla); the first block of a real chain is the
 // empty genesis block, which the model's shapes include as their first element.
